@@ -1,7 +1,7 @@
 #!/venv/bin/python
 """Runs every claimed check against every seeded change (scratch copies, 16 workers); updates seeded/*/meta.json (detected_by)
 and prints the detection matrix.   usage: seed_matrix.py [--no-write] [--props=C05,C14] [seed ids...]"""
-import json, multiprocessing as mp, shutil, subprocess, sys, tempfile
+import json, multiprocessing as mp, os, shutil, subprocess, sys, tempfile
 from pathlib import Path
 
 VERIF = Path(__file__).resolve().parents[1]
@@ -44,12 +44,12 @@ def main():
     for a in sys.argv[1:]:
         if a.startswith("--props="):
             pids = a.split("=", 1)[1].split(",")
-    seeds = [d for d in sorted((VERIF / "seeded").iterdir()) if (d / "meta.json").exists() and (not args or d.name in args)]
+    seeds = [d for d in sorted((VERIF / os.environ.get("SEED_DIR", "seeded")).iterdir()) if (d / "meta.json").exists() and (not args or d.name in args)]
     with mp.get_context("fork").Pool(16) as pool:
         results = pool.map(one, [(s, pids) for s in seeds])
     missed = []
     for name, out in results:
-        meta_p = VERIF / "seeded" / name / "meta.json"
+        meta_p = VERIF / os.environ.get("SEED_DIR", "seeded") / name / "meta.json"
         meta = json.loads(meta_p.read_text())
         det = {pid: rules for pid, rules in out.items() if not pid.startswith("_") and not any(r.startswith(("ANALYSIS-ERROR", "CRASH")) for r in rules)}
         errs = {pid: rules for pid, rules in out.items() if pid.startswith("_") or any(r.startswith(("ANALYSIS-ERROR", "CRASH")) for r in rules)}
